@@ -104,3 +104,61 @@ def replay_word(spec, w):
     row, _ = table_decode(spec.table, w)
     check_word(acc, spec, cpu, w, a, row, 'replay', random.Random(0))
     return sorted(acc.viol)
+
+
+def history_shard(spec_ref, other_ref, seed, count):
+    """decode depends on nothing but the word (and the current instruction set): ONE long-lived instance decodes a word through
+    ArmV6.decode_instruction() in this instruction set, then the same numeric word in the other instruction set, then again in this
+    one - after having decoded many other words before; every answer must equal the stateless decoder's answer"""
+    spec = get_spec(spec_ref)
+    other = get_spec(other_ref)
+    acc = Acc()
+    rng = random.Random(seed)
+    cpu = spec.cpu()
+    n_arm, joint = spec.compute_joint()
+    words = [w for w, a, row, tr in joint]
+
+    def via_instance(sp, w):
+        cpu.registers.cpsr.t = 1 if sp.thumb else 0
+        cpu.opcode = w
+        cpu.opcode_len = sp.nbits
+        try:
+            r = cpu.decode_instruction(w)
+        except NotImplementedError:
+            return 'EXC:NotImplemented'
+        except Exception as e:
+            return 'EXC:' + type(e).__name__
+        return r.__name__ if isinstance(r, type) else 'None'
+    for _ in range(count):
+        w = rng.choice(words) if rng.random() < 0.8 else spec.randword(rng)
+        if spec.nbits == 32 and not spec.thumb and rng.random() < 0.5:
+            w = (w & 0x0FFFFFFF) | (rng.choice((0xE, 0xF)) << 28)       # numeric range shared with 32-bit Thumb encodings
+        seq = [(spec, via_instance(spec, w)), (other, via_instance(other, w)), (spec, via_instance(spec, w))]
+        acc.case(True, ('hist', spec.nbits, spec.thumb, w), cls='history-independent-decode',
+                 sample=lambda: {'word': '%#010x' % w, 'answers': [a for _, a in seq]})
+        for i, (sp, got) in enumerate(seq):
+            want = dc.outcome_of(sp.decoder, w)
+            if got != want:
+                acc.violation('%s:decode-depends-on-history:%s' % (spec.prop, 'arm' if not sp.thumb else 'thumb'),
+                              {'word': w, 'nbits': spec.nbits, 'kind': 'history', 'step': i}, {'stateless': want, 'via_instance': got, 'sequence': [a for _, a in seq]})
+                break
+    return acc
+
+
+def replay_history(spec, other, w):
+    cpu = spec.cpu()
+    out = []
+    for sp in (spec, other, spec):
+        cpu.registers.cpsr.t = 1 if sp.thumb else 0
+        cpu.opcode, cpu.opcode_len = w, sp.nbits
+        try:
+            r = cpu.decode_instruction(w)
+            got = r.__name__ if isinstance(r, type) else 'None'
+        except NotImplementedError:
+            got = 'EXC:NotImplemented'
+        except Exception as e:
+            got = 'EXC:' + type(e).__name__
+        want = dc.outcome_of(sp.decoder, w)
+        if got != want:
+            out.append('%s vs %s' % (want, got))
+    return out
